@@ -57,6 +57,10 @@ CLAIMED = {
    text="Proof (partial): RevocationIds is proved to return exactly one identifier per block, in order: the authority block's signature followed by each later block's signature as stored in the signed envelope (the bytes an independent decoder finds there); Append and Seal are proved to keep the parent's signed blocks (same objects, never written), so a derived token's identifiers begin with the parent's.",
    note="Not decided: uniqueness of identifiers of blocks signed at different times - it rests on the freshness of the per-block key pair and the signature scheme, which contracts over uninterpreted ed25519 cannot express. Stability across serialization is the assumed protobuf contract.",
    technique=T, ref="4/C17"),
+ "C18": dict(
+   text="Proof (partial): SerializePolicies is proved to refuse (error, no bytes) once the authorizer has been evaluated, and to return no bytes on any error; LoadPolicies/loadPoliciesV2 and SerializePolicies are proved panic-free on every decoded message that satisfies the protobuf schema (required fields set, repeated elements non-nil: the assumed contract of proto.Unmarshal), including every nil dereference, index and type switch in the five loops; loading is proved to install exactly one check and one policy per decoded entry with the decoded kind (allow/deny), and to add facts and rules only to the authorizer's working world (write frame).",
+   note="Not decided: equivalence of the restored authorizer with the original (a statement over two authorizers and a serialisation in between; each direction is under the row-by-row converter contracts of C07, and protobuf is assumed). An unknown policy kind cannot be loaded as allow or deny: every loaded policy's kind is proved to be the decoded kind.",
+   technique=T, ref="4/C18"),
  "C19": dict(
    text="Proof (partial) by strict write frames instead of schedule exploration: authorizerFor, Append and Seal are proved to perform no write to memory that existed before the call (including in-place appends into spare capacity of shared slices), and SymbolTable.Clone is proved to own its capacity; without writes to shared locations no interleaving can race on them.",
    note="Not yet under contract for this property: Authorize/Query, printing, GetBlockID, CreateBlock and builders, Serialize; sharing a parser.Parser is an assumption about participle. Assumed: library calls on shared read-only arguments are safe for concurrent use.",
